@@ -178,7 +178,19 @@ func (w *Reconciler) syncJobTasks(
 	// NOTE(irvinlim): Avoid using List() which performs a complete linear search.
 	tasks := make([]jobtasks.Task, 0, len(rj.Status.Tasks))
 	for _, ref := range rj.Status.Tasks {
-		if task, err := taskMgr.Lister().Get(ref.Name); err == nil {
+		task, err := taskMgr.Lister().Get(ref.Name)
+
+		// An unfinished task that is not in the cache may simply not have been
+		// observed by the task informer yet (e.g. it was just created). Confirm with
+		// the apiserver before it is treated as lost.
+		if kerrors.IsNotFound(err) && ref.FinishTimestamp.IsZero() {
+			task, err = taskMgr.Client().Get(ctx, ref.Name)
+			if err != nil && !kerrors.IsNotFound(err) {
+				return rj, errors.Wrapf(err, "cannot get task %v", ref.Name)
+			}
+		}
+
+		if err == nil {
 			tasks = append(tasks, task)
 		}
 	}
@@ -830,6 +842,13 @@ func (w *Reconciler) handleFinishFinalizer(
 	tasks := make([]jobtasks.Task, 0, len(rj.Status.Tasks))
 	for _, taskRef := range rj.Status.Tasks {
 		task, err := taskMgr.Lister().Get(taskRef.Name)
+
+		// The cache may be behind, make sure that the task is really gone before we
+		// finalize the Job without deleting it.
+		if kerrors.IsNotFound(err) {
+			task, err = taskMgr.Client().Get(ctx, taskRef.Name)
+		}
+
 		if kerrors.IsNotFound(err) {
 			continue
 		} else if err != nil {
